@@ -145,6 +145,10 @@ def tasks(tier, seed, selftest=False):
                 S.append(dict(family="U2", skeleton=(qy, mid, ch), timebox=6 if q else 600))
                 if not q:
                     S.append(dict(family="D3", skeleton=(qy, mid, ch), timebox=120))
+    # several source SCCs with non-trivial sub-diagrams: the attachment path of expand_scc / block decomposition
+    for fam in ("B22", "P:SW2+SW2"):
+        for sk in (("seeds", "reclaim", "scc"), ("seeds", "scc"), ("seeds", "reclaim", "block"), ("succ", "seeds", "reclaim", "scc")):
+            S.append(dict(family=fam, skeleton=sk, timebox=12 if q else 600))
     if q:
         for ch in ("skip", "skiprem", "min", "block", "scc", "succ"):
             S.append(dict(family="D3", skeleton=("seeds", ch), timebox=8))
